@@ -42,6 +42,7 @@ func TestVerifyFunctions(t *testing.T) {
 			}
 			// untrusted block: genuine or forged
 			var b *types.LightBlock
+			hostileLayout := false // commit not laid out one slot per validator: acceptance is not REQUIRED
 			kind := rapid.SampledFrom([]string{"genuine", "genuine", "forged", "forged", "forged"}).Draw(t, "bkind")
 			now := w.T(L).Add(time.Second)
 			if kind == "forged" || bh > L {
@@ -62,6 +63,10 @@ func TestVerifyFunctions(t *testing.T) {
 				}
 				if fs.nilRest {
 					kind += ":nil-rest"
+				}
+				if fs.layout != "" {
+					kind += ":layout-" + fs.layout
+					hostileLayout = true
 				}
 			} else {
 				b = w.g[bh]
@@ -115,8 +120,8 @@ func TestVerifyFunctions(t *testing.T) {
 				why = rf.forward(a, b, now)
 			}
 			// strictness margin of the trust level (the code asks for MORE than floor(total*num/den))
-			clean := true
-			if b.Height > a.Height+1 {
+			clean := !hostileLayout
+			if clean && b.Height > a.Height+1 {
 				tally, total := rf.trustTally(a.ValidatorSet, b)
 				l := new(big.Int).Mul(tally, new(big.Int).SetUint64(den))
 				r := new(big.Int).Mul(total, new(big.Int).SetUint64(num))
